@@ -10,6 +10,9 @@ TRUST = ("Apply mirrors baseapp's per-message branch/commit; cosmos-sdk store/IA
 
 # id -> (built?, category, technique, text, design_ref, extra note)
 CHECKS = {
+ "C01": (True, "model_checking", "exhaustive enumeration of adversarial attestation sequences x attester configurations against an independent reference verifier",
+         "For every enabled set, key spelling and threshold, ALL sequences of up to T+1 atoms (honest, legacy-v, high-s twin, other-message, unknown key, zero, bad v, truncated, padded) are verified by the exported "
+         "verifier and by a reference reading using different recovery code; results must agree (soundness and completeness). Every configuration is also reached by transactions and exercised through receive and replace.", "5 C01", ""),
  "C02": (True, "model_checking", "explicit-state BFS to closure of the used-nonce lattice + exhaustive ordered-pair key grid",
          "All used-nonce sets over a small (domain, nonce) universe are reached by real receives with differing bodies, attestation encodings and submitters, interleaved with pausing, "
          "attester rotation and re-linking; a second receive for a used pair must fail; single query, paginated list and export must equal the history in every state; key injectivity over a boundary grid by behaviour.", "5 C02", ""),
@@ -23,12 +26,18 @@ CHECKS = {
  "C05": (True, "model_checking", "explicit-state BFS with ledger conservation invariant on the real bank/fiattokenfactory",
          "All histories up to the depth over deposits, sends (incl. burn-message imitations), replacements and pausing: supply destroyed == sum of burn amounts over distinct module-sent nonces, "
          "only the depositor is debited, nothing stays in the module account, sender rule for every emitted message.", "5 C05", ""),
+ "C06": (True, "model_checking", "exhaustive product enumeration over producing transaction types, judged by an independent decoder",
+         "Every combination of destination, recipient, caller, body, amount, mint recipient and submitter at three history points is executed; the emitted bytes are decoded with the reference codec "
+         "and compared field by field with request, response and DepositForBurn event; replacement events are compared with the original deposit's event.", "5 C06", ""),
  "C07": (True, "model_checking", "explicit-state BFS over interleavings of succeeding/failing outbound transactions from several start counters",
          "Every interleaving up to depth 6 (quick) / 10 (thorough) of succeeding and failing sends, deposits (incl. failures after the reservation / after the burn) and replacements: "
          "k-th success carries start+k-1 in response and emitted bytes, the query equals start+#successes in every state, replacements reuse the original nonce.", "5 C07", ""),
  "C08": (True, "model_checking", "exhaustive product enumeration of precondition vectors over the real deposit handlers",
          "Every combination of configuration (limit, flags, max body, denom spelling, burn-side state) and request (amount boundaries, token, recipient, caller, depositor, destination) "
          "is executed; success iff the documented conjunction, with 'can pay'/'burn succeeds' answered by a dry run on the real ledger.", "5 C08", ""),
+ "C09": (True, "model_checking", "exhaustive product enumeration of originals x new fields x configurations",
+         "Thirteen kinds of original (own, foreign, unattested, rotated, deposits, imitations, replacements of replacements) x both replacement types x new-field shapes x pause flags x attester rotation: "
+         "success only under the stated conditions; the emitted replacement equals the original outside the allowed fields; raw four-store diff empty.", "5 C09", ""),
  "C10": (True, "model_checking", "explicit-state BFS over role assignments + exhaustive probes of every privileged transaction by every submitter",
          "All assignments of the four roles and the pending slot over the account universe are reached by real role transactions; in each, all 18 privileged "
          "transaction types are submitted by every account; effect iff the submitter holds the matching role, otherwise byte-identical state.", "5 C10", ""),
